@@ -184,7 +184,7 @@ def run(ctx):
     big = Acc()
     from .. import docspace as D
     hb = [(h, ['k', 'b', 'd', 'h', 'd', 'S0', 'd', 'H', 'd', 'h', 'J0', 'd', 'H', 'b'], seed + k) for k, h in enumerate((['**kern', '**text'], ['**text', '**kern', '**kern'], ['**kern', '**kern'], ['**kern', '**text', '**kern', '**dynam']))]
-    for h, seq, sd in D.huge_docs(seed + 6, headers=(('**kern', '**text'), ('**text', '**kern', '**kern'))) + D.giant_jobs(seed) + hb + [(['**kern', '**kern'], ['d', 'S0', 'S0', 'S0', 'S0', 'd', 'Z0', 'd', 'S3', 'd', 'J0', 'J0', 'd'], seed + 3),
+    for h, seq, sd in D.huge_docs(seed + 6, headers=(('**kern', '**text'), ('**text', '**kern', '**kern'))) + D.giant_jobs(seed) + D.aligned_jobs(seed) + hb + [(['**kern', '**kern'], ['d', 'S0', 'S0', 'S0', 'S0', 'd', 'Z0', 'd', 'S3', 'd', 'J0', 'J0', 'd'], seed + 3),
                        (['**kern', '**text', '**kern'], ['d', 'S2', 'S2', 'S2', 'S2', 'S2', 'd', 'W3', 'd', 'J2', 'd', 'J2', 'd'], seed + 4),
                        (['**kern', '**text', '**kern'], ['k', 'd', 'S0', 'S0', 'S0', 'd', 'S3', 'd', 'Y0', 'd', 'J0', 'J0', 'd', 'X1', 'd', 'b', 'S2', 'S3', 'd', 'J2', 'J2', 'd'], seed)]:
         mm = D.materialise((h, seq, sd), cap=16)
